@@ -75,4 +75,24 @@ theorem window_energy_le_input_power (f : Fld ℂ) (m n : ℕ) (hm : f.arr.s0 = 
   congr 2
   simp [propagateWindow, sumList, dft2]
 
+/-- **the FFT path is the centred unitary DFT.** With `np.fft.fft2(norm='ortho')` the unitary DFT with origin at index 0
+and `fftshift`/`ifftshift` their documented index maps (contracts), `fftshift ∘ fft2 ∘ ifftshift` on an `S0 × S1` grid
+equals `dft2` with `α = (1/S0, 1/S1)`, unitary, both origins at `⌊S/2⌋` — at every index, for even *and* odd sizes. -/
+theorem fft_path_is_unitary_dft (x : Arr ℂ) (S0 S1 : ℕ) (h0 : x.s0 = S0) (h1 : x.s1 = S1) (hS0 : 0 < S0) (hS1 : 0 < S1)
+    (k l : ℤ) :
+    (fftPath (R := ℝ) x).get k l = (dft2 x (1 / (S0 : ℝ)) (1 / (S1 : ℝ)) S0 S1 0 0 0 0 true).get k l :=
+  fftPath_eq_dft2 x S0 S1 h0 h1 hS0 hS1 k l
+
+/-- hence the FFT propagator conserves energy on its (zero-padded) grid: `Σ|fftPath x|² = Σ|x|²` -/
+theorem fft_path_conserves_energy (x : Arr ℂ) (S0 S1 : ℕ) (h0 : x.s0 = S0) (h1 : x.s1 = S1) (hS0 : 0 < S0) (hS1 : 0 < S1) :
+    arrSum (intensity (R := ℝ) (fftPath (R := ℝ) x)) = arrSum (intensity (R := ℝ) x) := by
+  rw [← dft_full_period_energy x S0 S1 h0 h1 S0 S1 hS0 hS1 le_rfl le_rfl 0 0 0 0, arrSum_eq, arrSum_eq]
+  have e0 : (intensity (R := ℝ) (fftPath (R := ℝ) x)).s0 = S0 := h0
+  have e1 : (intensity (R := ℝ) (fftPath (R := ℝ) x)).s1 = S1 := h1
+  have e2 : (intensity (R := ℝ) (dft2 x (1 / (S0 : ℝ)) (1 / (S1 : ℝ)) S0 S1 0 0 0 0 true)).s0 = S0 := rfl
+  have e3 : (intensity (R := ℝ) (dft2 x (1 / (S0 : ℝ)) (1 / (S1 : ℝ)) S0 S1 0 0 0 0 true)).s1 = S1 := rfl
+  rw [e0, e1, e2, e3]
+  refine sum_congr rfl fun i _ => sum_congr rfl fun j _ => ?_
+  simp only [intensity, NormSqLike.normSq, fftPath_eq_dft2 x S0 S1 h0 h1 hS0 hS1]
+
 end Lentil.C05
